@@ -60,7 +60,7 @@ def loader_counter_rules(ctx, m, loaders):
     """the loader restores the stamp counter above every stored queue time of a placed order"""
     ctx.check(len(loaders) == 1, "loader", "found", "-", "snapshot loader found")
     for f in loaders:
-        lq = m.q(f)
+        lq = m.qi(f)
         r = lq.ret()
         aggs = [x for x in walk(r) if x[0] == "agg" and x[1] == "adt" and x[2].endswith("OrderBook::OrderBook")]
         if not aggs:
